@@ -201,6 +201,7 @@ def case_strategy():
         gen_cfg.model_and_spec(force=['global_enc', 'subint_reply', 'bool_reply']),
         gen_cfg.model_and_spec(force=['deep_ns', 'partial_spelling', 'nested_enum']),
         gen_cfg.model_and_spec(want_mc=True, force=['many_ports', 'system_enc']),
+        gen_cfg.model_and_spec(force=['ref_extern', 'prefix_ports', 'many_ports'], want_mixed=True),
         gen_cfg.model_and_spec())
 
 
